@@ -1234,6 +1234,11 @@ class Wrapc(util.WrapperMixin):
                     fmt_result.c_val = wformat(
                         result_typemap.cxx_to_c, fmt_result
                     )
+                    if (result_typemap.sgroup == "string" and
+                        not result_is_const):
+                        # c_str() returns a const pointer.
+                        fmt_result.c_val = wformat(
+                            "const_cast<{c_type} *>(\t{c_val})", fmt_result)
                     append_format(
                         return_code, "{c_rv_decl} =\t {c_val};", fmt_result
                     )
